@@ -314,7 +314,7 @@ var reshapable = map[string]bool{"AtomicNotify": true, "AsyncNotify": true, "Tas
 func (ps *PathSum) callStatic(s *psState, f *psFrame, x ssa.Instruction, callee *ssa.Function, args []string, pos token.Pos) []*psOutcome {
 	o := origin(callee)
 	r := ps.roles
-	iargs := args            // in the callee's current parameter order (for inlining)
+	iargs := args               // in the callee's current parameter order (for inlining)
 	args = bargs(o, args, true) // in the order the roles and rules know
 	var xv ssa.Value
 	if v, ok := x.(ssa.Value); ok {
